@@ -34,6 +34,7 @@ Block(t) == [id |-> t[1], addr |-> t[2], sz |-> t[3], al |-> t[4]]
 Blocks(o) == [i \in 1..Len(o.blocks) |-> Block(o.blocks[i])]
 
 IsStep(r) == r.a # "final"
+NAllocEv(r) == Cardinality({k \in 1..Len(r.o.base) : r.o.base[k][1] = "alloc"})
 Ok(r) == r.o.res = "ok"
 AllocLike(r) == r.a \in {"alloc", "grow", "shrink"}
 
@@ -108,6 +109,11 @@ C03_Viol(r) ==
     \/ r.o.stats[1] < e[4] \/ r.o.stats[2] < e[5]                      \* chunks acquired inside remain available
     \/ r.o.damaged # <<>>                                             \* earlier allocations intact
 
+\* "Repeating the same workload in a new scope needs no new memory from the base allocator, and a fixed workload run in a
+\*  reset() loop stops requesting chunks after finitely many rounds": steps of the repeated scope / of the last round
+C03_Again(r) ==
+    \/ r.a = "alloc" /\ Has(r.args, "again") /\ r.args.again /\ (NAllocEv(r) > 0 \/ r.o.res # "ok")
+
 (***************************************************************************)
 (* C05  every chunk returned exactly once and fits                         *)
 (***************************************************************************)
@@ -159,7 +165,6 @@ C10_Viol(r) ==
 (***************************************************************************)
 (* C12 (arena clause)  a fresh chunk fits the request that caused it       *)
 (***************************************************************************)
-NAllocEv(r) == Cardinality({k \in 1..Len(r.o.base) : r.o.base[k][1] = "alloc"})
 C12_Viol(r) ==
     IsStep(r) /\
     \/ NAllocEv(r) > 1                                                          \* at most one chunk per request
@@ -291,7 +296,8 @@ Init == /\ done = TRUE
         /\ PrintT(<<"CHECKED", Len(Rec)>>)
         /\ PrintT(<<"BAD_C01", {i \in Idx : C01_Viol(Rec[i])}>>)
         /\ PrintT(<<"BAD_C02", {i \in Idx : C02_Viol(Rec[i])}>>)
-        /\ PrintT(<<"BAD_C03", {i \in Idx : C03_Viol(Rec[i])}>>)
+        /\ PrintT(<<"BAD_C03", {i \in Idx : C03_Viol(Rec[i]) \/ C03_Again(Rec[i])}>>)
+        /\ PrintT(<<"N_AGAIN", Cardinality({i \in Idx : Rec[i].a = "alloc" /\ Has(Rec[i].args, "again") /\ Rec[i].args.again})>>)
         /\ PrintT(<<"BAD_C05", {i \in Idx : C05_Viol(Rec[i])}>>)
         /\ PrintT(<<"BAD_C10", {i \in Idx : C10_Viol(Rec[i])}>>)
         /\ PrintT(<<"BAD_C12", {i \in Idx : C12_Viol(Rec[i])}>>)
